@@ -1,5 +1,5 @@
 """C01 - see DESIGN.md section 6/C01.  Parts: KernelImpl.tla (TLC) + kernel/subject traces vs Contract.tla (C01 clauses)."""
-import vlib, parts_kernel
+import vlib, parts_kernel, parts_pipeline as pp, common
 
 PID = 'C01'
 
@@ -11,7 +11,8 @@ def main(argv):
     s = rep.seed
     parts_kernel.model_part(rep, parts_kernel.THOROUGH_MODELS if thorough else parts_kernel.QUICK_MODELS)
     parts_kernel.trace_part(rep, PID, 600 if thorough else 300, [s * 100 + i for i in range(10 if thorough else 2)])
-    rep.cov['rule'] = ('kernel traces: seeded scenarios (1-4 producers with legal and illegal scripts, 0-2 unsubscribers, adders, waiters, '
+    pp.run(rep, PID, common.pipeline_cfgs(rep, 'illegal'))
+    rep.cov['rule'] = common.PIPE_RULE + '; ' + ('kernel traces: seeded scenarios (1-4 producers with legal and illegal scripts, 0-2 unsubscribers, adders, waiters, '
                        'inside-callback unsubscription, panicking teardowns; observable safe/eventually-safe/unsafe and the 5 subjects) run on the real '
                        'library with yield hooks; non-trivial = distinct traces in which two harness threads had calls in flight simultaneously')
     rep.assumptions += ['the harness log mutex orders events consistently with real time', 'small-scope: <= 4 producers, scripts <= 6']
@@ -20,4 +21,6 @@ def main(argv):
 
 def replay(path):
     vlib.build_harness()
-    return parts_kernel.replay_trace(PID, path)
+    if path.endswith('.ndjson'):
+        return parts_kernel.replay_trace(PID, path)
+    return pp.replay_case(PID, path)
